@@ -486,34 +486,39 @@ def _pokeable(v) -> bool:
     return type(v).__name__ in ("ReferenceValueMap", "ColorMap")
 
 
-def poke(v, nested=False) -> bool:
-    """In-place edit of an object returned by a getter; True when something was changed."""
+def poke(v, nested=False, undo=None) -> bool:  # noqa: C901  pylint: disable=too-many-return-statements,too-many-branches
+    """In-place edit of an object returned by a getter; True when something was changed.
+    `undo`: list that receives a callable restoring the previous content."""
+    undo = [] if undo is None else undo
     if isinstance(v, np.ndarray):
         if v.dtype.names:
-            field = v[v.dtype.names[0]]
-            return poke(field)
+            return poke(v[v.dtype.names[0]], undo=undo)
         idx = (0,) * v.ndim
         old = v[idx]
         if v.dtype.kind == "b":
-            v[idx] = not bool(old)
+            new = not bool(old)
         elif v.dtype.kind in "iu":
-            v[idx] = old + 1
+            new = old + 1
         elif v.dtype.kind == "f":
-            v[idx] = 12345.5 if not old == 12345.5 else 54321.5
+            new = 12345.5 if not old == 12345.5 else 54321.5
         elif v.dtype.kind in "US":
-            v[idx] = "Z" if old != "Z" else "Y"
+            new = "Z" if old != "Z" else "Y"
         elif v.dtype.kind == "O":
-            v[idx] = "poked"
+            new = "poked"
         else:
             return False
+        saved = old.copy() if hasattr(old, "copy") else old
+        v[idx] = new
+        undo.append(lambda: v.__setitem__(idx, saved))
         return True
     if isinstance(v, dict):
         if nested:
             for val in v.values():
                 if isinstance(val, (dict, list)):
-                    return poke(val)
+                    return poke(val, undo=undo)
             return False
         v["c12-poke"] = 1
+        undo.append(lambda: v.pop("c12-poke", None))
         return True
     if isinstance(v, list):
         if v and isinstance(v[-1], (int, float)) and not isinstance(v[-1], bool):
@@ -522,16 +527,19 @@ def poke(v, nested=False) -> bool:
             v.append(dict(v[-1]))
         else:
             v.append("c12-poke")
+        undo.append(lambda: v.pop())
         return True
     name = type(v).__name__
     if name == "ReferenceValueMap":
         if nested:
-            return poke(v.map)
+            return poke(v.map, undo=undo)
         key = sorted(v.map)[-1]
+        saved = v.map[key]
         v[key] = "poked"  # value-map item assignment
+        undo.append(lambda: v.map.__setitem__(key, saved))
         return True
     if name == "ColorMap":
-        return poke(getattr(v, "_values"))
+        return poke(getattr(v, "_values"), undo=undo)
     return False
 
 
@@ -585,6 +593,9 @@ def enumerate_edits(copy, copy_labels, same_workspace) -> list:
                 continue
             for vi in range(nvals):
                 sets.append(["set", path, attr, vi])
+    # convenience setters that write INTO another stored field (domains.VIEWS) go before the setters
+    # that replace that field as a whole, which would hide a shared nested object from them
+    sets.sort(key=lambda e: 0 if e[2] in domains.VIEWS else 1)
     return pokes + sets
 
 
@@ -609,7 +620,9 @@ def apply_edit(copy, copy_labels, edit) -> dict:
             info["status"] = "applied"
         else:
             val = getattr(obj, attr)
-            info["status"] = "applied" if poke(val, nested=(kind == "poke2")) else "refused"
+            undo = []
+            info["status"] = "applied" if poke(val, nested=(kind == "poke2"), undo=undo) else "refused"
+            info["undo"] = undo
     except Exception as err:  # pylint: disable=broad-except
         info["error"] = f"{type(err).__name__}: {str(err)[:120]}"
     return info
@@ -780,6 +793,13 @@ def run_edits(st, edits):
         now = workspace_records(ws_a, only=all0)
         if info["status"] == "applied":
             info["live_diff"] = diff_records({k: v for k, v in prev_all.items() if k in all0}, {k: v for k, v in now.items() if k in all0})
+        undo = info.pop("undo", None)
+        if undo and len(edits) > 1:
+            # inside a sequence an in-place edit is taken back once observed (nothing of it is on file):
+            # the following edits and the end-of-sequence checks start from an undisturbed source
+            for fn in reversed(undo):
+                fn()
+            now = workspace_records(ws_a, only=all0) if info.get("live_diff") else now
         prev_all = now  # a refused edit is not judged (it may leave partial state); the next edit starts from here
         obs["edits"].append(info)
     st["prev_all"] = prev_all
@@ -1081,7 +1101,17 @@ def judge(history, obs) -> list:  # noqa: C901  pylint: disable=too-many-branche
         return viol
     mask = history.get("mask", "none")
     mtag = "[mask]" if mask != "none" else ""
+    ctag = "[clear_cache]" if history.get("clear") else ""
+    source_changed = False
+    if obs.get("source_live_diff"):
+        # one copy, one disturbance: the signature names the most basic changed field (geometry first,
+        # then other fields of objects / groups, then data), the detail lists every changed field
+        source_changed = True
+        first = sorted(obs["source_live_diff"], key=_rank)[0]
+        viol.append(("source-unchanged", _diff_witness(first) + ctag, {"changed": [e[:5] for e in obs["source_live_diff"][:8]], "copy_error": obs.get("copy_error")}))
     if "copy_error" in obs:
+        if source_changed:
+            return viol  # the failed copy is reported through the damage it left in the source
         err = obs["copy_error"]
         if err["type"] == "None":
             wit = f"{obs['copy_defined_in']}.copy:returns-None"
@@ -1096,14 +1126,6 @@ def judge(history, obs) -> list:  # noqa: C901  pylint: disable=too-many-branche
     if not obs["copy_parent_ok"]:
         viol.append(("copy-yields-entity", f"{obs['copy_defined_in']}.copy:not-under-the-target-parent", {"class": obs["src_class"]}))
     # ---- source unchanged by the copy (live getters, then the flushed file)
-    ctag = "[clear_cache]" if history.get("clear") else ""
-    seen = set()
-    for e in obs.get("source_live_diff") or []:
-        wit = _diff_witness(e) + ctag
-        if wit not in seen:
-            seen.add(wit)
-            viol.append(("source-unchanged", wit, {"entry": e[:5]}))
-    source_changed = bool(seen)
     file_changed = False
     for key, comps in obs.get("file_diff") or []:
         if not _allowed_file_change(key, comps, obs):
@@ -1132,8 +1154,8 @@ def judge(history, obs) -> list:  # noqa: C901  pylint: disable=too-many-branche
     if obs["edits"]:
         applied = [i for i in obs["edits"] if i["status"] == "applied"]
         single = len(obs["edits"]) == 1 and len(applied) == 1
-        name = _edit_name(applied[-1]) if single else "edit-sequence"
-        if applied and not shown and not source_changed and not file_changed:
+        name = _edit_name_stored(applied[-1]) if single else "edit-sequence"
+        if applied and not (shown and single) and not source_changed and not file_changed:
             bad = [[key, comps] for key, comps in obs.get("final_file_diff") or [] if not _allowed_file_change(key, comps, obs)]
             if bad:
                 viol.append(("copy-independent", f"{name}->file", {"nodes": bad[:6], "edits": [i["edit"] for i in applied][-6:]}))
@@ -1147,11 +1169,10 @@ def judge(history, obs) -> list:  # noqa: C901  pylint: disable=too-many-branche
                     viol.append(("source-file-unchanged", _file_witness(key, comps), {"key": key, "components": comps}))
         if not source_changed:
             seen = set()
-            for e in obs.get("source_reopen_diff") or []:
-                wit = _diff_witness(e) + "[reopen]" + ctag
-                if wit not in seen:
-                    seen.add(wit)
-                    viol.append(("source-unchanged", wit, {"entry": e[:5]}))
+            if obs.get("source_reopen_diff"):
+                first = sorted(obs["source_reopen_diff"], key=_rank)[0]
+                seen.add(1)
+                viol.append(("source-unchanged", _diff_witness(first) + "[reopen]" + ctag, {"changed": [e[:5] for e in obs["source_reopen_diff"][:8]]}))
             if obs.get("reopen_missing"):
                 viol.append(("copy-equals-source", "absent-after-reopen:" + ("copy" if obs["reopen_missing"]["copy"] else "source"), obs["reopen_missing"]))
             elif "src_recs_reopen" in obs and not seen and not live_unequal:  # re-opened copies are judged when the live ones were equal
@@ -1159,9 +1180,27 @@ def judge(history, obs) -> list:  # noqa: C901  pylint: disable=too-many-branche
     return viol
 
 
+def _rank(entry):
+    section, name = entry[1], entry[2]
+    kind = ((entry[5] if len(entry) > 5 else None) or {}).get("kind", "")
+    if section == "attrs" and name in ("vertices", "cells"):
+        return (0, name, entry[0])
+    if not kind.startswith("data"):
+        return (1, section, name, entry[0])
+    return (2, section, name, entry[0])
+
+
 def _edit_name(info) -> str:
     kind, _path, attr, _vi = info["edit"]
     return f"{'set' if kind == 'set' else 'inplace'}:{info['defining']}.{attr}"
+
+
+def _edit_name_stored(info) -> str:
+    """Name of an edit whose effect was found in the source FILE: attributes of concatenated holes
+    and data all live in one table of their group, so the attribute is incidental there."""
+    if "+concat" in (info.get("role") or ""):
+        return f"{'set' if info['edit'][0] == 'set' else 'inplace'}:attribute-of-concatenated-entity"
+    return _edit_name(info)
 
 
 def _edit_tag(obs) -> str:
